@@ -3,7 +3,10 @@
         -> arg=<hex> pat=<hex|none> kwd=<hex|none> rep=<hex> g=<0|1> rest=<hex>
            (ex_arg, re_read twice, remembered pattern / replacement: pat = what is compiled, none = error return)
      run <g> <hexrep> <hexline> <table>        table = words k.nb=so,eo,so1,eo1,... as printed by probe_rstr tb
-        -> U | C <hexnewline> | OOB | FUEL *)
+        -> U | C <hexnewline> | OOB | FUEL
+     ef <hexpat> <icase> <hexline>             the MODEL of the matcher (SubstEngineDefs.engine_find = rstr_make / rstr_find over
+        RstrDefs / RsetDefs / ReVM at the recursion limit NDEPT) on every suffix of the line with and without RE_NOTBOL
+        -> path=<s|g|x> <k>.<nb>=<so>,<eo>,<so1>,<eo1>,... cut=<n>      (the line probe_rstr tb prints for /repo's matcher) *)
 let pr = Printf.printf
 let hexo = function None -> "none" | Some b -> hex_of_bytes b
 let ohex w = if w = "none" then None else Some (bytes_of_hex w)
@@ -35,10 +38,21 @@ let do_run g rep line table =
   | SOOB -> pr "OOB\n"
   | SFuel -> pr "FUEL\n"
 
+let do_ef pat ic line =
+  let pat = bytes_of_hex pat and line = bytes_of_hex line in
+  let ic = (ic = "1") in
+  let (tbl, cuts) = engine_table engine_depth ic pat line in
+  pr "path=%c" (Char.chr (int_of_n (engine_path ic pat)));
+  List.iter (fun ((k, nb), g) ->
+    pr " %d.%d=%s" (int_of_nat k) (if nb then 1 else 0)
+      (String.concat "," (List.map (fun (a, b) -> Printf.sprintf "%d,%d" (int_of_z a) (int_of_z b)) g))) tbl;
+  pr " cut=%d\n" (int_of_n cuts)
+
 let () =
   iter_lines (fun l ->
     (match words l with
      | ["pre"; k; r; t] -> do_pre k r t
      | "run" :: g :: r :: ln :: table -> do_run g r ln table
+     | ["ef"; p; ic; ln] -> do_ef p ic ln
      | _ -> pr "?\n");
     flush stdout)
